@@ -4,7 +4,8 @@ While active, builtins.open / os.replace / os.remove are proxied; every operatio
 `root` (open, each write() call, flush, close, replace, remove) gets an index in one stream.
 A fault plan {"k": index, "kind": "oserror"|"perm"|"kbi"|"exit"} fires *before* the k-th operation
 takes effect (a rename that takes effect and then reports failure is not a realistic fault).
-"oserror" is a one-shot EIO; "perm" is a persistent condition: PermissionError(EACCES) at operation k and
+"call" runs plan["fn"]() (not counted, not faulted) before operation k: another writer's complete write in the
+same directory.  "oserror" is a one-shot EIO; "perm" is a persistent condition: PermissionError(EACCES) at operation k and
 at every later operation of the same kind (for a write also at flush/close), as a read-only directory or a
 full disk would produce.
 """
@@ -66,6 +67,7 @@ class Injector:
         self.log = []
         self.fired = False
         self.sticky_kinds = ()
+        self.passive = False
 
     def mine(self, path):
         try:
@@ -75,6 +77,8 @@ class Injector:
         return (p + os.sep).startswith(self.root) or p.startswith(self.root)
 
     def op(self, kind, path):
+        if self.passive:
+            return
         k = self.count
         self.count += 1
         self.log.append((k, kind, os.path.basename(os.fspath(path))))
@@ -92,6 +96,13 @@ class Injector:
                 raise KeyboardInterrupt(f"injected interrupt at file op {k} ({kind})")
             if p["kind"] == "exit":
                 os._exit(0)
+            if p["kind"] == "call":
+                # something else happens in the directory between two operations of the write under test
+                self.passive = True
+                try:
+                    p["fn"]()
+                finally:
+                    self.passive = False
 
     # proxies
     def open(self, file, mode="r", *a, **kw):
